@@ -398,6 +398,103 @@ struct Runner {
 		return false;
 	}
 
+	void configLine() {
+		Out& o = out();
+		o << "config limit=" << VH_LIMIT << " bottomup=" << VH_BOTTOMUP << " manual=" << VH_MANUAL << " plans=" << VH_PLANS
+		  << " history=" << VH_HISTORY << " serial=" << VH_SERIAL << " util=" << VH_UTIL << " struct=" << VH_STRUCT
+		  << " log=" << VH_LOG << " payload=" << VH_PAYLOAD
+#if VH_PLANS
+		  << " taskcap=" << static_cast<long long>(FSM::TASK_CAPACITY)
+#else
+		  << " taskcap=0"
+#endif
+		  << " queuecap=" << static_cast<long long>(FSM::COMPO_COUNT) << "\n";
+	}
+
+#if VH_UTIL
+	// C12 boundary sweep (DESIGN §7 C12): for every random-strategy region whose sub-states are plain
+	// states, drive `randomize` and `changeTo` of the region with forced ranks, utilities and generator
+	// outputs: non-dyadic utilities (rounding differs between the balanced sum and the sequential walk),
+	// outputs 0, 1/2, 1-2^-24 and both neighbours of every cumulative boundary, last sub-state of lower
+	// rank / zero utility.  `budget` resolutions per region, sampled by the seed when the grid is larger.
+	void sweepC12(uint64_t seed, int index, int budget) {
+		Script& s = script();
+		std::vector<int> regions;
+		for (int i = 0; i < STATE_COUNT; ++i) {
+			if (STATES[i].strategy != 4 || STATES[i].width < 2 || STATES[i].width > 4) continue;
+			bool leaves = true;
+			for (int c = i + 1, k = 0; k < STATES[i].width; ++k) { if (STATES[c].width != 0) leaves = false; c += STATES[c].size; }
+			if (leaves && i > 0) regions.push_back(i);
+		}
+		if (regions.empty() || VH_MANUAL) return;
+		s.prng = Prng{seed * 7777777ull + 99};
+		s.knobs = Knobs{};
+		s.sweeping = true;
+		s.forcedUtility.assign(static_cast<size_t>(STATE_COUNT), -1.0f);
+		s.forcedRank.assign(static_cast<size_t>(STATE_COUNT), INT_MIN);
+		Out& o = out();
+		o << "scenario " << index << "\n" << "shape " << SHAPE_TEXT << "\n";
+		configLine();
+		o << "op 0 new\n";
+		s.firstActivation = true; construct(0, 0x00); s.firstActivation = false;
+		o << "end\n"; snap(0);
+		o << "op 1 new\n";
+		s.firstActivation = true; construct(1, 0xFF); s.firstActivation = false;
+		o << "end\n"; snap(1);
+		static const float PAL[] = {0.1f, 0.2f, 0.3f, 0.4f, 0.5f, 0.6f, 0.7f, 0.8f, 0.9f};
+		long resolutions = 0;
+		for (int region : regions) {
+			const int w = STATES[region].width;
+			std::vector<int> subs;
+			for (int c = region + 1, k = 0; k < w; ++k) { subs.push_back(c); c += STATES[c].size; }
+			for (int n = 0; n < budget; ++n) {
+				// utilities
+				std::vector<float> u(static_cast<size_t>(w));
+				for (int k = 0; k < w; ++k) u[static_cast<size_t>(k)] = PAL[s.prng.below(9)];
+				// rank / zero pattern for the last sub-state
+				const unsigned pat = s.prng.below(4);
+				for (int k = 0; k < w; ++k) s.forcedRank[static_cast<size_t>(subs[static_cast<size_t>(k)])] = 0;
+				if (pat == 1) s.forcedRank[static_cast<size_t>(subs.back())] = -1;
+				if (pat == 2) u.back() = 0.0f;
+				if (pat == 3) s.forcedRank[static_cast<size_t>(subs.front())] = -1;
+				for (int k = 0; k < w; ++k) s.forcedUtility[static_cast<size_t>(subs[static_cast<size_t>(k)])] = u[static_cast<size_t>(k)];
+				// generator output: end points or a neighbour of a cumulative boundary (computed in double)
+				double sum = 0; for (int k = 0; k < w; ++k) if (s.forcedRank[static_cast<size_t>(subs[static_cast<size_t>(k)])] == 0) sum += u[static_cast<size_t>(k)];
+				float r;
+				const unsigned which = s.prng.below(10);
+				if (which < 4)			{ uint32_t b = 0x3F7FFFFFu; memcpy(&r, &b, 4); }
+				else if (which == 4)	r = 0.0f;
+				else if (which == 5)	r = 0.5f;
+				else {
+					double prefix = 0; const int upto = static_cast<int>(s.prng.below(static_cast<unsigned>(w)));
+					for (int k = 0; k <= upto; ++k) if (s.forcedRank[static_cast<size_t>(subs[static_cast<size_t>(k)])] == 0) prefix += u[static_cast<size_t>(k)];
+					float b = sum > 0 ? static_cast<float>(prefix / sum) : 0.5f;
+					uint32_t bits; memcpy(&bits, &b, 4);
+					const int delta = static_cast<int>(s.prng.below(3)) - 1;
+					bits = static_cast<uint32_t>(static_cast<int64_t>(bits) + delta);
+					memcpy(&b, &bits, 4);
+					r = (b >= 0.0f && b < 1.0f) ? b : 0.25f;
+				}
+				s.forcedRng = r;
+				const int kind = s.prng.chance(50) ? 5 : 0;		// randomize / changeTo (the region is Random)
+				const int k = 0;
+				o << "op " << k << " imm " << std::string(1, KIND_LETTER[kind]) << " " << region << " -\n";
+				apiRequest(k, true, kind, region, -1);
+				o << "end\n";
+				snap(k);
+				++resolutions;
+				if (o.buf.size() > (1u << 20)) o.flush();
+			}
+		}
+		s.forcedRng = -1.0f;
+		s.forcedUtility.clear(); s.forcedRank.clear();
+		s.sweeping = false;
+		for (int k = 0; k < 2; ++k) { o << "op " << k << " destroy\n"; destroy(k); o << "end\n"; }
+		o << "# stat c12_sweep_resolutions=" << static_cast<long long>(resolutions) << "\n";
+		o.flush();
+	}
+#endif
+
 	void scenario(uint64_t seed, int index, int opCount) {
 		Script& s = script();
 		s.prng = Prng{seed * 1000003ull + static_cast<uint64_t>(index)};
@@ -413,15 +510,7 @@ struct Runner {
 		Out& o = out();
 		o << "scenario " << index << "\n";
 		o << "shape " << SHAPE_TEXT << "\n";
-		o << "config limit=" << VH_LIMIT << " bottomup=" << VH_BOTTOMUP << " manual=" << VH_MANUAL << " plans=" << VH_PLANS
-		  << " history=" << VH_HISTORY << " serial=" << VH_SERIAL << " util=" << VH_UTIL << " struct=" << VH_STRUCT
-		  << " log=" << VH_LOG << " payload=" << VH_PAYLOAD
-#if VH_PLANS
-		  << " taskcap=" << static_cast<long long>(FSM::TASK_CAPACITY)
-#else
-		  << " taskcap=0"
-#endif
-		  << " queuecap=" << static_cast<long long>(FSM::COMPO_COUNT) << "\n";
+		configLine();
 
 		static const unsigned char FILLS[] = {0x00, 0xFF, 0xAA, 0x3C};
 		for (int k = 0; k < 2; ++k) {
@@ -621,8 +710,13 @@ inline int run(int argc, char** argv) {
 	const int scenarios  = argc > 2 ? atoi(argv[2]) : 10;
 	const int ops        = argc > 3 ? atoi(argv[3]) : 40;
 	static Runner runner;
+	const int sweep      = argc > 4 ? atoi(argv[4]) : 0;
 	for (int i = 0; i < scenarios; ++i)
 		runner.scenario(seed, i, ops);
+#if VH_UTIL
+	if (sweep > 0)
+		runner.sweepC12(seed, scenarios, sweep);
+#endif
 	out() << "# stat assertion_hits=" << static_cast<long long>(g_assertionHits) << "\n";
 	out() << "# stat allocations_inside_api=" << static_cast<long long>(allocStats().inside) << "\n";
 	out() << "# stat allocations_by_harness=" << static_cast<long long>(allocStats().outside) << "\n";
